@@ -33,11 +33,15 @@ K_ZERO = 'Atomic_Factors zero factor taken for failure crystal_diffraction.c:290
 K_OVF = 'Crystal_dSpacing int overflow 2*i_miller*j_miller crystal_diffraction.c:472-474'
 
 REQUIRED_THEOREMS = [
-    'volume_formula', 'volume_null_fails', 'dspacing_inversion', 'dspacing_scale', 'dspacing_reciprocal_metric',
-    'recip_metric_is_inverse', 'bragg_law', 'bragg_no_reflection_full_fails', 'bragg_no_reflection_partial', 'bragg_no_reflection_fixed',
-    'atomic_factors_spec', 'atomic_factors_zero_full_fails', 'atomic_factors_zero_fixed',
-    'fh_explicit_sum', 'fh_additive_flags', 'fh_friedel', 'fh_000', 'fh_invalid_flags', 'fh_no_abort',
-    'fh_no_ub_full_fails_null', 'fh_no_ub_full_fails_zatom', 'fh_no_ub_fixed', 'dspacing_no_ub_full_fails', 'dspacing_no_ub_fixed',
+    'volume_formula', 'volume_null_fails', 'volume_degenerate_nf',
+    'dspacing_inversion', 'dspacing_scale', 'recip_metric_is_inverse', 'dspacing_reciprocal_metric_scaled', 'dspacing_reciprocal_metric',
+    'dspacing_meets_spec', 'dspacing_no_ub_partial', 'dspacing_no_ub_full_fails', 'dspacing_no_ub_fixed',
+    'bragg_law', 'bragg_law_valid_cell', 'bragg_nonpositive_energy_fails', 'bragg_no_reflection_nf', 'bragg_no_reflection_full_fails', 'bragg_no_reflection_fixed',
+    'atomic_factors_spec', 'atomic_factors_debye_fails', 'atomic_factors_zero_silent', 'atomic_factors_zero_full_fails', 'atomic_factors_zero_fixed',
+    'fh_explicit_sum', 'fh_explicit_sum_list', 'fh_explicit_sum_complex', 'fh_additive_flags', 'fh_friedel', 'fh_000_general', 'fh_000',
+    'fh_invalid_flags', 'fh_invalid_flags_no_atoms', 'fh_no_abort',
+    'fh_no_ub_full_fails_null', 'fh_no_ub_full_fails_zatom', 'fh_no_ub_partial', 'fh_no_ub_fixed', 'fh_null_fixed', 'fh_is_partial_222',
+    'c_abs_spec', 'c_mul_spec',
 ]
 
 FLAGS12 = [(a, b, c) for a in (0, 1, 2) for b in (0, 2) for c in (0, 2)]
@@ -359,11 +363,9 @@ def gen_cases(R, crystals):
     for c in crystals:
         out.append(('vol', L('vol', c.id, 'E'))); out.append(('vol', L('vol', c.id, 'N')))
     out += [('vol', 'vol N E'), ('vol', 'vol N N')]
-    # B. d-spacing: the whole box for the built-in crystals (quick: every crystal on a seeded 1/3 of the box incl. its
-    #    inverses and multiples; thorough: the whole box), samples for generated cells ---------------------
+    # B. d-spacing: the whole box [-6,6]^3 for the built-in crystals (exhaustive), samples for generated cells -----------
     for c in builtin:
-        hs = box if th else list(dict.fromkeys(h2 for h in r.sample(nz, 240) for h2 in (h, (-h[0], -h[1], -h[2])))) + [(0, 0, 0)]
-        for h in hs: out.append(('dsp', L('dsp', c.id, h[0], h[1], h[2], 'E')))
+        for h in box: out.append(('dsp', L('dsp', c.id, h[0], h[1], h[2], 'E')))
     for c in gen:
         for h in r.sample(nz, 60 if th else 14):
             out.append(('dsp', L('dsp', c.id, h[0], h[1], h[2], 'E')))
@@ -381,10 +383,10 @@ def gen_cases(R, crystals):
     # C/D. Bragg angle and Q: energies across 0.1..200 keV, at and around the cut-off, non-positive ---------
     cs = crystals if th else (builtin + gen)
     for c in cs:
-        hs = r.sample(nz, 12 if th else 3) + [(1, 1, 1), (0, 0, 0)]
+        hs = r.sample(nz, 16 if th else 6) + [(1, 1, 1), (0, 0, 0)]
         for h in hs:
             d0 = None
-            for E in energies(r, 6 if th else 2) + [0.0, -1.0]:
+            for E in energies(r, 8 if th else 3) + [0.0, -1.0]:
                 out.append(('bragg', L('bragg', c.id, E, h[0], h[1], h[2], r.choice('EEN'))))
             rel = r.choice([1.0, 1.0, 0.5, 0.0, 1.7, -1.0, 100.0, r.uniform(0, 2)])
             out.append(('q', L('q', c.id, r.choice(energies(r, 2)), h[0], h[1], h[2], rel, r.choice('EEN'))))
@@ -393,7 +395,7 @@ def gen_cases(R, crystals):
     # E. Atomic_Factors: every Z in [-2,122], all pointer masks, Debye factors incl. <= 0, energies incl. exact zeros of Fii --
     zer = [(z[1], z[2]) for z in R.zero_pts]
     for Z in range(-2, 123):
-        for _ in range(6 if th else 2):
+        for _ in range(12 if th else 4):
             E = r.choice([8.0, 0.5, 30.0, 150.0, 10 ** r.uniform(-1, 2.3), 0.0011, 1e-4, 1e5])
             q = r.choice([0.0, 0.16, 0.5, 2.0, 7.9, -0.1, 1e9, r.uniform(0, 8)])
             out.append(('af', L('af', Z, E, q, r.choice([1.0, 0.9, 0.5, 0.0, -1.0, 1e-300]), r.choice([7, 7, 7] + list(range(8))), r.choice('EEN'))))
@@ -409,14 +411,14 @@ def gen_cases(R, crystals):
         out.append(('fh', L('fh', c.id, E, h[0], h[1], h[2], deb, rel, 'E')))
         f = r.choice(BADFLAGS); out.append(('fhp-badflag', L('fhp', c.id, E, h[0], h[1], h[2], deb, rel, f[0], f[1], f[2], r.choice('EEN'))))
     for c in builtin:
-        for _ in range(5 if th else 1):
+        for _ in range(8 if th else 3):
             bundle(c, r.choice(nz), r.choice([8.047, 17.48, 10 ** r.uniform(0.3, 2.2)]), r.choice([1.0, 0.9, 0.7]), r.choice([1.0, 1.0, 0.9, 1.1]), full=(len(c.atoms) <= 30 or th))
         out.append(('fhp-000', L('fhp', c.id, r.choice([8.047, 25.0]), 0, 0, 0, 0.9, r.choice([1.0, 0.3]), 2, 0, 0, 'E')))
         out.append(('fhp-000', L('fhp', c.id, 12.0, 0, 0, 0, 0.8, 1.0, 2, 2, 2, 'E')))
         out.append(('fhp-lowE', L('fhp', c.id, r.choice([0.1, 0.3, 0.7]), 1, 1, 1, 1.0, 1.0, 2, 2, 2, 'E')))
     small = [c for c in gen if len(c.atoms) <= 12]
     for c in small:
-        for _ in range(3 if th else 1):
+        for _ in range(6 if th else 2):
             bundle(c, r.choice(nz), 10 ** r.uniform(-1, 2.3), r.choice([1.0, 0.9, 0.5, 0.0, -0.5]), r.choice([1.0, 0.0, 0.5, 2.5, -1.0]), full=th)
         out.append(('fhp-000', L('fhp', c.id, 8.0, 0, 0, 0, 1.0, 1.0, 2, 0, 0, r.choice('EN'))))
     for c in r.sample(crystals, 12):
@@ -523,9 +525,16 @@ def search(R, crystals, mains, c_out, aux_out, spec_out, valid):
             mask = int(t[5]); deb = unhx(t[4]); rc = v[0]
             if row is not None and deb > 0:
                 want = [('ff', 1), ('fi', 2), ('fii', 4)]
-                failing = next((k for k, b in want if mask & b and row[k + 'err'] != '-'), None)
-                # evaluation stops at the first failing term
-                if failing is None:
+                # evaluation stops at the first failing term — and, in the shipped code, at the first zero product
+                failing = None; zero_first = False
+                for k, b in want:
+                    if not mask & b: continue
+                    if row[k + 'err'] != '-': failing = k; break
+                    if row[k] * deb == 0: zero_first = True; break
+                if zero_first:
+                    if rc == 0 and not err: out.append(Finding(m, K_ZERO, 'a factor is exactly 0 (no elemental error): Atomic_Factors reports failure without an error', c, 'rc 1'))
+                    elif rc != 1: out.append(Finding(m, None, 'a factor is exactly 0: neither success nor the known silent failure', c, 'rc 1'))
+                elif failing is None:
                     if rc != 1 or err:
                         zero = any(mask & b and row[k] * deb == 0 for k, b in want)
                         out.append(Finding(m, K_ZERO if (zero and rc == 0 and not err) else None, 'all requested factors are available, yet Atomic_Factors reports failure' + (' without an error' if not err else ''), c, 'rc 1'))
@@ -898,7 +907,7 @@ class C13:
         core.write_evidence(ctx, 'proof', cov, len(new) + (1 if broken and not new else 0), ASSUMPTIONS)
         log('%s %s: exit %d (%.1fs; theorems %d/%d; corr %d lines, %d mismatches; search %d relations/expectations, %d violations, known %s; variant %s)' % (
             ID, R.tier, exit_code, time.time() - ctx.t0, n_dis, len(theorems), len(mains), len(mism), sum(sstats['cases'].values()), len(new),
-            {k[:28]: h['n'] for k, h in hits.items()}, variant))
+            {k[:44]: h['n'] for k, h in hits.items()}, variant))
         return exit_code
 
     # ---- replay context: the lines a relation needs ------------------------------------------------------------
